@@ -35,6 +35,7 @@ import (
 // value before and the value after the block are both tolerated.
 
 type sink struct {
+	emptyOp          string                                // the operation that last reduced the number of eligible validators (attribution of "empty set")
 	minVotes, window int64                                 // evidence options of the world (missed-votes rule)
 	op               string                                // attribution of judgements that concern no single validator
 	opOf             func(addr string, freeze bool) string // attribution of judgements about one validator: the operation that last changed its record or freeze flag
@@ -144,7 +145,11 @@ func (s *sink) flaggedNow(prev, cur *stkview.View, addr string, h int64) bool {
 // checkBlock judges the updates of block h. prev/cur are the decoded states after h-1 and h.
 func checkBlock(s *sink, h int64, prev, cur *stkview.View, ups []abci.ValidatorUpdate, halt error) {
 	if halt != nil {
-		s.violate("updates-rejected-by-tendermint", "err="+haltClass(halt), fmt.Sprintf("height %d: %v", h, halt))
+		if c := haltClass(halt); c == "empty-set" && s.emptyOp != "" && !strings.Contains(s.op, "records-share-a-key") {
+			s.violateOp(s.emptyOp, "updates-rejected-by-tendermint", "err="+c, fmt.Sprintf("height %d: %v", h, halt))
+		} else {
+			s.violate("updates-rejected-by-tendermint", "err="+c, fmt.Sprintf("height %d: %v", h, halt))
+		}
 	}
 	if !prev.Opt.OK || !cur.Opt.OK {
 		s.violate("harness", "staking-options-undecodable", "the staking options could not be decoded from the dump")
@@ -264,6 +269,17 @@ func minInt64(a, b int64) int64 {
 		return a
 	}
 	return b
+}
+
+// eligibleCount: validators that could be elected by the records (stake >= minimum, not frozen).
+func eligibleCount(v *stkview.View) int {
+	n := 0
+	for a, r := range v.Vals {
+		if v.Opt.OK && r.Staking.Cmp(v.Opt.Min) >= 0 && !v.IsFrozen(a) {
+			n++
+		}
+	}
+	return n
 }
 
 // electionPrint is everything the reference election depends on.
